@@ -41,6 +41,21 @@ Print Assumptions C08_range.
 
 (* the range check rejects nothing else: the checked decoder returns r exactly
    when the unchecked (pinned) decoder returns r and r is in range *)
+(* The rule list is a judgement on the decoded outputs: the values it accepted
+   are exactly the decoded ones, and those are the ones in range.  (In the model
+   validation returns a verdict and cannot alter its argument; for the Go code
+   "the accepted transaction still carries the decoded values" is a history
+   property, checked by the harness reading every output / spent UTxO before and
+   after validation.) *)
+Theorem C08_accepted_outputs_are_the_decoded_ones : forall rules strict outs,
+  accepted rules strict outs = true ->
+  exists vs, decode_all true strict outs = Some vs /\ rules vs = true /\ Forall value_in_range vs.
+Proof.
+  intros rules strict outs H. pose proof H as H'. unfold accepted in H'.
+  destruct (decode_all true strict outs) as [vs|] eqn:E; [|discriminate].
+  exists vs. split; [reflexivity|]. split; [exact H'|]. eapply decode_all_range; eauto.
+Qed.
+
 Theorem C08_check_exact : forall strict v r,
   decode_value true strict v = Some r <-> decode_value false strict v = Some r /\ range_ok (snd r) = true.
 Proof. exact decode_value_chk_iff. Qed.
